@@ -765,7 +765,7 @@ fn run_base(b: &Value) -> Vec<Value> {
         Err(e) => {
             // setup_channel refused this setup: nothing can be asked of this channel
             rows.push(json!({"k": "base", "b": b["b"], "name": b["name"], "S": sv, "C": c, "hist": b["hist"], "setup_ok": false,
-                             "setup": e, "sem": {"ok": false, "tag": "nosetup", "canon": false, "hs": []},
+                             "setup": e, "htx": [], "sem": {"ok": false, "tag": "nosetup", "canon": false, "hs": []},
                              "sem2": {"ok": false, "tag": "nosetup", "canon": false, "same": false}}));
             for mu in b["muts"].as_array().unwrap() {
                 rows.push(json!({"k": "skip", "b": b["b"], "id": mu["id"]}));
